@@ -84,7 +84,13 @@ def _is_pure(e: ast.AST) -> bool:
     return True
 
 
-def local_env(fn: ast.AST) -> Dict[str, ast.AST]:
+def local_defs(fn: ast.AST) -> Dict[str, ast.AST]:
+    """Like local_env, but keeps impure definitions (calls) too.  Use only to
+    ask "where does this value come from", never to duplicate evaluation."""
+    return local_env(fn, pure_only=False)
+
+
+def local_env(fn: ast.AST, pure_only: bool = True) -> Dict[str, ast.AST]:
     """name -> defining expression, for locals bound exactly once by a plain
     `name = <pure expr>` (tuple unpacking of a tuple literal is split)."""
     counts: Dict[str, int] = {}
@@ -139,7 +145,7 @@ def local_env(fn: ast.AST) -> Dict[str, ast.AST]:
             for a in n.names:
                 nm = (a.asname or a.name).split(".")[0]
                 counts[nm] = counts.get(nm, 0) + 1
-    return {k: v for k, v in defs.items() if counts.get(k, 0) == 1 and _is_pure(v)}
+    return {k: v for k, v in defs.items() if counts.get(k, 0) == 1 and (not pure_only or _is_pure(v))}
 
 
 class _Subst(ast.NodeTransformer):
